@@ -190,6 +190,20 @@ Theorem C17_unlocked_peek_sees_invalid_config_orig_refuted :
 Proof. exact unlocked_peek_sees_invalid_config_orig_refuted. Qed.
 Print Assumptions C17_unlocked_peek_sees_invalid_config_orig_refuted.
 
+(** "Issuance through the ACME issuer on its first attempt is subject to this limit per CA and
+    account", in the form in which it is observed at the CA: when all calls begin at or after
+    the instant t0 at which the limiter of that CA + account is created, the j-th admission
+    (0-based) is not before t0 + (j / n) * w — and an order reaches the CA only after its
+    admission.  Tied end to end: bursts of real ACMEIssuer.Issue calls against a mock ACME CA
+    with small RateLimitEvents / RateLimitEventsWindow, order arrival instants taken at the CA
+    (class e2e-throttle). *)
+Theorem C17_burst_lower_bound : forall (n : nat) (w t0 : Z) ls s', (0 < n)%nat -> 0 <= w ->
+  stable ls = true -> run (init n w t0) ls = Some s' ->
+  forall j, (j < length (handovers ls))%nat ->
+    t0 + Z.of_nat (j / n) * w <= nth j (handovers ls) 0.
+Proof. exact burst_lower_bound. Qed.
+Print Assumptions C17_burst_lower_bound.
+
 (** non-vacuity *)
 Example C17_example_run :
   let ls := [Compute 1010; TimerFire 1010; Handover 1010; Rec 1011; Compute 1011; TimerFire 1012; Handover 1012;
